@@ -10,6 +10,7 @@ import (
 	"verif/pkg/drv"
 	"verif/pkg/gram"
 	"verif/pkg/lab/proto"
+	"verif/pkg/refpeg"
 )
 
 // CollectOpts parameterises a batch of generated cases.
@@ -21,6 +22,7 @@ type CollectOpts struct {
 	Hostile   bool     // add the fixed hostile inputs
 	Long      bool     // add long repetitions
 	Pumped    int      // add this many inputs of up to 240 runes whose repetitions iterate many times
+	Huge      int      // add this many inputs of up to 6000 runes (repetitions iterate up to 2999 times): thousands of tokens
 	Histories int      // number of histories per grammar
 	MaxRune   bool     // allow U+10FFFF in terminals
 	FirstID   int
@@ -77,6 +79,9 @@ func Collect(seed uint64, o CollectOpts) []*Case {
 					cs.Spell[i] = 0
 				}
 			}
+		}
+		if g.Count(gram.KAct) >= 2 && rapid.IntRange(0, 3).Draw(t, "actstyle") == 0 {
+			cs.ActStyle = 1
 		}
 		ch := gram.RapidChooser{T: t}
 		seen := map[string]bool{}
@@ -141,6 +146,43 @@ func Collect(seed uint64, o CollectOpts) []*Case {
 			k := rapid.IntRange(0, len(s)).Draw(t, "splice")
 			add(s[:k] + "\xff" + s[k:])
 			add(s + "\x00")
+			// one rune of an accepted text replaced by a single invalid byte (or NUL, or the
+			// largest code point) at a place where the grammar takes any character: the parse
+			// goes on across it, and offsets behind it differ between bytes and runes
+			kept := 0
+			for try := 0; try < 6 && kept < 3; try++ {
+				rs := gram.Sample(g, 0, ch, 24)
+				if len(rs) == 0 {
+					continue
+				}
+				bad := rapid.SampledFrom([]string{"\xff", "\x80", "\xc3", "\x00", "\U0010FFFF", "\xed\xa0\x80"}).Draw(t, "hostilebyte")
+				// every position is tried, those inside a capture that an action reads first
+				var order []int
+				inCap := map[int]bool{}
+				if r := refpeg.Run(g, 0, rs, 20000); r.OK {
+					for _, x := range refpeg.ExecTrace(r.Root, rs) {
+						for at := x.B; at < x.E; at++ {
+							if !inCap[at] {
+								inCap[at] = true
+								order = append(order, at)
+							}
+						}
+					}
+				}
+				for at := range rs {
+					if !inCap[at] {
+						order = append(order, at)
+					}
+				}
+				for _, at := range order {
+					in := string(rs[:at]) + bad + string(rs[at+1:])
+					if r := refpeg.Run(g, 0, []rune(in), 20000); r.OK && r.End > at {
+						add(in)
+						kept++
+						break
+					}
+				}
+			}
 		}
 		for k := 0; k < o.Pumped; k++ {
 			s := gram.SamplePumped(g, 0, ch, 240, 48)
@@ -155,6 +197,27 @@ func Collect(seed uint64, o CollectOpts) []*Case {
 				}
 			}
 			add(string(s))
+		}
+		if o.Huge > 0 {
+			// draw four times the quota and keep the best by the property's own ranking
+			type hc struct {
+				s     string
+				score int
+			}
+			var hcs []hc
+			for k := 0; k < 4*o.Huge; k++ {
+				if s := gram.SamplePumped(g, 0, ch, 6000, 3000); len(s) > 240 {
+					sc := 0
+					if o.Score != nil {
+						sc = o.Score(g, 0, s)
+					}
+					hcs = append(hcs, hc{string(s), sc})
+				}
+			}
+			sort.SliceStable(hcs, func(i, j int) bool { return hcs[i].score > hcs[j].score })
+			for k := 0; k < len(hcs) && k < o.Huge; k++ {
+				add(hcs[k].s)
+			}
 		}
 		if o.Long {
 			body := string(gram.Sample(g, 0, ch, 6))
